@@ -144,6 +144,27 @@ def gen(ctx, cfg, defines, mode="mc", num=0, depth=0, timeout=600):
     return r.cases
 
 
+def slowstart_end_cases(ctx, num):
+    """C01 'slow start finished': a restarted backend ramps up for 1 s with sparse traffic (a gap around the end of the
+    period); afterwards the long-run shares must be the configured ones (TraceSlb.TShareCheck)."""
+    import random
+    rnd = random.Random(ctx.seed * 59 + 1)
+    out = []
+    for _ in range(num):
+        n = rnd.randint(2, 4)
+        w = [rnd.randint(1, 3) for _ in range(n)]
+        ops = [{"op": "load", "n": n, "ord": list(range(1, n + 1)), "w": w},
+               {"op": "slowstart", "b": rnd.randint(1, n), "t": 1}]
+        for ms in (rnd.randint(50, 300), rnd.randint(200, 500)):
+            ops += [{"op": "sleep", "t": ms}, {"op": "pick", "algo": "smooth", "r": 0}]
+        ops += [{"op": "sleep", "t": 700 + rnd.randint(0, 300)}, {"op": "pick", "algo": "smooth", "r": 0},
+                {"op": "sleep", "t": 20}, {"op": "pick", "algo": "smooth", "r": 0}, {"op": "ssdone"}]
+        ops += [{"op": "pick", "algo": "smooth", "r": 0}] * (30 * sum(w))
+        ops.append({"op": "sharecheck"})
+        out.append({"ops": ops})
+    return out
+
+
 def check_c01(ctx):
     q = ctx.tier == "quick"
     ctx.cov["rule"] = ("cases = TLC-enumerated (exhaustive small N) and TLC-simulated behaviours of GenSlb "
@@ -171,6 +192,8 @@ def check_c01(ctx):
         cases += gen(ctx, "Gen_C01.cfg", g2, mode="sim", num=num, depth=40)
     cases += random_cases(ctx, 40 if q else 400, 6, 12 if q else 30, 150 if q else 400, ["smooth"], flips=True)
     ctx.cov["exhaustive"] = False
+    run_cases(ctx, slowstart_end_cases(ctx, 6 if q else 40), twin=False, label="C01-slowstart-end",
+              decisive={"ShareAfterSlowStart", "ReplyOK", "panic", "hang"})
     run_cases(ctx, cases, twin=True, label="C01",
               decisive={"Window", "Periodic", "Deterministic", "FreshDeterministic", "panic", "hang", "unknown-backend", "ReplyOK"})
 
@@ -255,6 +278,8 @@ def check_c02(ctx):
             cases.append(dict(c, kind="slb"))
             if c["n"] <= 3:                      # the gslb harness has three named sub-clusters
                 cases.append(dict(c, kind="gslb"))
+                if 0 in c["w"]:                  # disabled sub-clusters are written with weight -1 as well
+                    cases.append(dict(c, kind="gslb", w=[x if x > 0 else -1 for x in c["w"]]))
     import random
     rnd = random.Random(ctx.seed)
     if len(cases) > (500 if q else 4000):
